@@ -132,7 +132,12 @@ pub fn v110_case(npk: usize, nwait: usize, variant: usize) -> Case {
                 let amt = symcore::var(&format!("lpk{seq}"));
                 symcore::assume(t::le(&t::u(amt), t::E27));
                 let st = statuses[(i + variant) % statuses.len()].clone();
-                v1_0_0::INFLIGHT_PACKETS.save(&mut b.chain.deps.storage, seq, &v1_0_0::IBCTransfer { sequence: seq, amount: amt, status: st.clone() }).unwrap();
+                // written at the raw key of the deployed 1.0.0 layout (namespace "inflight"), not through the crate's constant
+                {
+                    use cosmwasm_std::Storage;
+                    let val = cosmwasm_std::to_json_vec(&v1_0_0::IBCTransfer { sequence: seq, amount: amt, status: st.clone() }).unwrap();
+                    b.chain.deps.storage.set(&crate::world::raw_map_key("inflight", seq), &val);
+                }
                 legacy.push((seq, amt, st));
             }
             let mut waiting = vec![];
@@ -140,7 +145,11 @@ pub fn v110_case(npk: usize, nwait: usize, variant: usize) -> Case {
                 let id = 1_000 + i as u64;
                 let amt = symcore::var(&format!("lw{id}"));
                 symcore::assume(t::le(&t::u(amt), t::E27));
-                v1_0_0::IBC_WAITING_FOR_REPLY.save(&mut b.chain.deps.storage, id, &v1_0_0::IbcWaitingForReply { amount: amt }).unwrap();
+                {
+                    use cosmwasm_std::Storage;
+                    let val = cosmwasm_std::to_json_vec(&v1_0_0::IbcWaitingForReply { amount: amt }).unwrap();
+                    b.chain.deps.storage.set(&crate::world::raw_map_key("ibc_waiting_for_reply", id), &val);
+                }
                 waiting.push((id, amt));
             }
             cw2::set_contract_version(&mut b.chain.deps.storage, "staking", "1.0.0").unwrap();
@@ -208,6 +217,12 @@ pub fn v110_case(npk: usize, nwait: usize, variant: usize) -> Case {
             claim(f, "C18:every pending reply keeps its key and gains denom and receiver", wok && n_w == waiting.len());
             prove(f, "C18:every pending reply keeps its amount", t::and(&ws));
             claim(f, "C18:all other stored data is untouched", raw_except(&before, &after, &[b"inflight", b"ibc_waiting_for_reply", b"contract_info"]));
+            {
+                use cosmwasm_std::Storage;
+                let raw_ok = legacy.iter().all(|l| b.chain.deps.storage.get(&crate::world::raw_map_key("inflight", l.0)).is_some()) && waiting.iter().all(|w| b.chain.deps.storage.get(&crate::world::raw_map_key("ibc_waiting_for_reply", w.0)).is_some());
+                claim(f, "C18:every tracked and pending transfer is still stored at its raw key of the deployed layout", raw_ok);
+                claim(f, "C18:every stored record lives under a namespace of the deployed storage layout", crate::world::namespaces(&after).iter().all(|n| crate::world::DEPLOYED_NAMESPACES.contains(&n.as_str())));
+            }
             let v = cw2::get_contract_version(&b.chain.deps.storage).unwrap();
             claim(f, "C18:the new version is recorded", v.version == staking::contract::CONTRACT_VERSION && v.contract == "staking");
             // refundable value recoverable before the upgrade is recoverable after it
